@@ -1133,14 +1133,14 @@ impl StoryState {
         if let Some(patch) = self.patch.as_ref()
             && let Some(index) = patch.get_turn_index(container)
         {
-            return Ok(self.current_turn_index - index);
+            return Ok(self.current_turn_index.wrapping_sub(*index));
         }
 
         let container_path_str = Object::get_path(container).to_string();
 
         if self.turn_indices.contains_key(&container_path_str) {
             let index = *self.turn_indices.get(&container_path_str).unwrap();
-            Ok(self.current_turn_index - index)
+            Ok(self.current_turn_index.wrapping_sub(index))
         } else {
             Ok(-1)
         }
